@@ -1,5 +1,5 @@
 (** C01 — Replicas holding the same entries show the same state in any arrival order. *)
-From Orbit Require Import Spec.Statements Proofs.GlobalProofs Proofs.Glue.
+From Orbit Require Import Spec.Statements Spec.GlobalExt Proofs.GlobalProofs Proofs.Glue Proofs.GlobalExtProofs.
 
 (** For every reachable state of the global system ([greach]: any interleaving of local
     writes by the [n] writers over any causal shape with merges of arbitrary batches of
@@ -49,3 +49,33 @@ Theorem C01_needs_no_ties_refuted :
   exists a b, etime a = etime b /\ ecid a = ecid b /\ a <> b /\ sort_desc [a; b] <> sort_desc [b; a].
 Proof. exact ties_order_dependent. Qed.
 Print Assumptions C01_needs_no_ties_refuted.
+
+(** The same over ALL delivery routes: the extended system [greach2] adds to local writes and
+    merges of fetched single entries (announced heads, head exchange, manual sync) the join
+    of a whole fetched log (load from disk per cached head, load from snapshot). *)
+Theorem C01_convergence_all_routes :
+  forall marks cont acc n dbid okop g a b ra rb,
+    greach2 marks cont acc okop n dbid g ->
+    nth_error (greps g) a = Some ra -> nth_error (greps g) b = Some rb ->
+    same_set (lents (rlog ra)) (lents (rlog rb)) ->
+    values (rlog ra) = values (rlog rb) /\ heads_sorted (rlog ra) = heads_sorted (rlog rb).
+Proof. exact convergence2_log. Qed.
+Print Assumptions C01_convergence_all_routes.
+
+Theorem C01_convergence_all_routes_kv :
+  forall marks cont acc n dbid g a b ra rb,
+    greach2 marks cont acc kv_okop n dbid g ->
+    nth_error (greps g) a = Some ra -> nth_error (greps g) b = Some rb ->
+    same_set (lents (rlog ra)) (lents (rlog rb)) ->
+    forall k, alookup bytes_eqb k (rkv ra) = alookup bytes_eqb k (rkv rb).
+Proof. exact convergence2_kv. Qed.
+Print Assumptions C01_convergence_all_routes_kv.
+
+Theorem C01_convergence_all_routes_doc :
+  forall cont acc n dbid g a b ra rb,
+    greach2 true cont acc doc_okop n dbid g ->
+    nth_error (greps g) a = Some ra -> nth_error (greps g) b = Some rb ->
+    same_set (lents (rlog ra)) (lents (rlog rb)) ->
+    forall k, alookup bytes_eqb k (rdoc ra) = alookup bytes_eqb k (rdoc rb).
+Proof. exact convergence2_doc. Qed.
+Print Assumptions C01_convergence_all_routes_doc.
